@@ -282,7 +282,7 @@ PROPS["C13"] = {
             "equal those of a second binary built with -tags coraza.no_memoize for the same seeds; non-trivial = two WAFs alive together and "
             "an equal string in two roles or different content under one name, with at least one probe",
     "essential": {"all": ["two-wafs-alive", "same-dataset-name-different-content", "same-file-name-different-root", "role:pm", "role:key-rx", "role:ctl-rx",
-                          "role:restpath", "role:nid", "role:rx", "role:binary-rx", "role:status", "role:dataset", "role:file", "role:key-rx-case-insensitive"]},
+                          "role:restpath", "role:nid", "role:rx", "role:binary-rx", "role:status", "role:dataset", "role:file", "role:key-rx-case-insensitive", "role:schema"]},
     "assumptions": COMMON_ASSUME + [
         "rapid generates the same case sequence in both binaries for a given seed (verified per line by the case hash)",
     ],
